@@ -274,7 +274,7 @@ def run(ctx: Ctx) -> int:
                     cur = None
             impl = "|".join(calls)
             ctx.case(req, nontrivial=any(echoes), sample={"script": src, "inputs": inputs, "model": m[:200]} if len(ctx.cov["samples"]) < 4 else None)
-            if impl != m:
+            if impl != m and "\nT " not in inputs:      # (runs across the counter wrap: the model's "stamp 0 = never triggered" only holds for a clock that starts at 0)
                 ctx.tie_diff("tie S_c ultrasonic (Fw.Ultra vs compiled helper)", {**replay, "request": req}, m, impl)
             # monitors on the raw trace
             last_stamp, last_good, pulses_in_call, pend = 0, None, 0, None
